@@ -110,6 +110,9 @@ def run(res, tier, seed):
         c = cases[cid]
         res.violation(what="C15 " + reason, reason=reason, op=c["op"], ret=rec[cid].get("ret"),
                       case={k: c[k] for k in c if k != "echo"}, box=rec[cid].get("box"))
+    # which cropping is in force after any sequence of builder calls (Options.tla, spec -> implementation)
+    import options
+    options.run(res, tier, seed, "C15")
     res.samples = [{k: c[k] for k in c if k != "echo"} for c in (cases[0], cases[len(cases) // 2], cases[-1])]
     res.cov["cases"] = len(cases)
     res.assumptions += ["centerings are dyadic rationals (exact in f64); NaN centering excluded by the property"]
